@@ -278,8 +278,17 @@ func (s *sim) makeWithdraw(v *view, spec TxSpec) *txInfo {
 		switch auth {
 		case 5:
 			// one arbiter's index fills every slot but... it alone "reaches" q
-			for k := range signerIdx {
-				signerIdx[k] = mod(w.Signer, n)
+			switch mod(w.Signer/3, 3) {
+			case 0: // the same index everywhere
+				for k := range signerIdx {
+					signerIdx[k] = mod(w.Signer, n)
+				}
+			case 1: // two arbiters taking turns: no repeat is adjacent (seed C33-3)
+				for k := range signerIdx {
+					signerIdx[k] = mod(w.Signer+k%2, n)
+				}
+			default: // all distinct but the last, which names the first again
+				signerIdx[len(signerIdx)-1] = signerIdx[0]
 			}
 			wf.authWhy = "withdraw-signer-index-repeated"
 		case 6:
